@@ -23,8 +23,9 @@ Clause -> domain (every case = one full encode/serialise/decode of 1..N pictures
                             (4:4:4/4:2:2/4:2:0, frames/fields) x slice grids (incl. more slices than coefficients)
                             x fragment_slice_count (0, 1, 2, 3, all, all+1); transform and content seeded.
   L3 lossless, pixel range  every luma depth 1..16 (chroma depth seeded, incl. excursions that are not 2**n - 1)
-                            x 7 symmetric wavelets x extreme contents; plus "every value" sequences in which each
-                            value 0 .. 2**d - 1 occurs in each component (d <= 8 quick, d <= 12 thorough).
+                            x every wavelet_index (wavelet_index_ho equal or seeded) x extreme contents; plus "every
+                            value" sequences in which each value 0 .. 2**d - 1 occurs in each component
+                            (d <= 8 quick, d <= 12 thorough).
   L4 lossless, long slices  component lengths steered (dwt_depth 0, exp-Golomb lengths computed here from the
                             standard) to exactly 255/256/510/511/765/766 bytes +- 1 bit, and 12..16 bit noise in
                             one or two slices, so that slice_size_scaler > 1 is needed; minimum_slice_size_scaler.
@@ -65,14 +66,14 @@ BIT_DEPTHS = [8, 8, 10, 12, 16, 1, 2, 7, 9, 11, 13, 3, 5, 15]
 
 # number of cases per family and tier (the enumerated families ignore this and report their measured size)
 SIZES = {
-    "quick": dict(L1_kinds=2, L2_sizes=6, L2_grids=5, L2_frags=4, L3_kinds=3, L3_allvalues_maxdepth=8, L4_noise=6, Q_shapes=5, Q_formats=60),
-    "thorough": dict(L1_kinds=6, L2_sizes=14, L2_grids=9, L2_frags=5, L3_kinds=8, L3_allvalues_maxdepth=12, L4_noise=40, Q_shapes=8, Q_formats=300),
+    "quick": dict(L1_kinds=2, L2_sizes=6, L2_grids=5, L2_frags=4, L3_kinds=2, L3_allvalues_maxdepth=8, L4_noise=6, Q_shapes=4, Q_formats=48),
+    "thorough": dict(L1_kinds=8, L2_sizes=14, L2_grids=9, L2_frags=5, L3_kinds=8, L3_allvalues_maxdepth=12, L4_noise=40, Q_shapes=8, Q_formats=300),
 }
 
 FAMILIES = {
     "L1": "lossless HQ: every wavelet pair x depth shape x content",
     "L2": "lossless HQ: frame size x sampling format x coding mode x slice grid x fragments",
-    "L3": "lossless HQ: every bit depth 1..16 x symmetric wavelets x extreme contents; every-value sequences",
+    "L3": "lossless HQ: every bit depth 1..16 x every wavelet_index x extreme contents; every-value sequences",
     "L4": "lossless HQ: component lengths at the 255-byte boundaries / slice_size_scaler > 1",
     "Q1": "lossy HQ coded with qindex 0 in every slice (generous and tightest picture_bytes)",
     "Q2": "lossy LD coded with qindex 0 in every slice (generous and tightest picture_bytes)",
@@ -572,8 +573,8 @@ def generate_cases(tier, seed):
                     d, dh = r.choice(small)
                     fams["L2"].append(_fill(r, dict(mode="lossless", w=w, h=h, cdf=cdf, pcm=pcm, sx=sx, sy=sy, frag=frag, d=d, dh=dh), wavelets, nmat))
 
-    # L3: every luma depth x symmetric wavelets x extreme contents; every-value sequences
-    ext = ["max", "checker", "nearext", "min", "impulse", "extnoise", "ramp", "noise"][:S["L3_kinds"]]
+    # L3: every luma depth x every wavelet_index x extreme contents; every-value sequences
+    ext = ["nearext", "checker", "max", "min", "impulse", "extnoise", "ramp", "noise"][:S["L3_kinds"]]
     for yd in range(1, 17):
         for wi in wavelets:
             for kind in ext:
@@ -615,7 +616,7 @@ def generate_cases(tier, seed):
                                         yexc=(1 << dep) - 1, cexc=(1 << dep) - 1, want_sss=True, min_sss=r.choice((1, 1, 2, 5))), wavelets, nmat))
 
     # Q1 / Q2: lossy with qindex 0
-    qshapes = DEPTH_SHAPES_ALL[:S["Q_shapes"]] if tier != "quick" else [(1, 0), (2, 0), (1, 1), (0, 2), (2, 1)]
+    qshapes = DEPTH_SHAPES_ALL[:S["Q_shapes"]] if tier != "quick" else [(1, 0), (2, 0), (1, 1), (0, 2)]
     for fam, mode in (("Q1", "hq"), ("Q2", "ld")):
         for wi in wavelets:
             for wih in wavelets:
@@ -624,12 +625,12 @@ def generate_cases(tier, seed):
                     r = _rng(seed, fam, i)
                     kind = KINDS[i % len(KINDS)]
                     c = _fill(r, dict(mode=mode, wi=wi, wih=wih, d=d, dh=dh, kind=kind), wavelets, nmat)
-                    c["tight"] = [r.randint(2, 3 * c["sx"] * c["sy"] + 2)] if (i % 2 == 0 or tier != "quick") else None
+                    c["tight"] = [r.randint(2, 3 * c["sx"] * c["sy"] + 2)] if (i % 3 == 0 or tier != "quick") else None
                     fams[fam].append(c)
         # budgets at which the width / range of a length field changes (HQ: a slice payload of 255k, 255k+1, 255k+2
         # bytes = the 8-bit length fields times slice_size_scaler; LD: slice_bytes around 2**j, where the width
         # intlog2(8 * slice_bytes - 7) of slice_y_length steps); contents that are certain to fit with qindex 0 there
-        for kind in ("min", "const", "noise", "impulse", "mixed") if tier != "quick" else ("const", "noise"):
+        for kind in ("mid", "const", "noise", "impulse", "min", "mixed") if tier != "quick" else ("mid", "noise"):
             for (sx, sy) in ((1, 1), (2, 1), (3, 2)) if tier != "quick" else ((1, 1), (2, 1)):
                 i = len(fams[fam])
                 r = _rng(seed, fam + "b", i)
@@ -680,7 +681,7 @@ def run_chunk(task):
     fam, start, cases = task
     res = {"family": fam, "cases": 0, "evals": 0, "ok": 0, "out": 0, "abandoned": [], "fails": [], "nfails": 0, "samples": [], "tags": {}, "pairs": set(), "seconds": 0.0}
     old = signal.signal(signal.SIGALRM, _on_alarm)
-    t0 = time.time()
+    t0 = time.process_time()
     for j, case in enumerate(cases):
         res["cases"] += 1
         signal.setitimer(signal.ITIMER_REAL, CASE_SECONDS)
@@ -719,7 +720,7 @@ def run_chunk(task):
                 if len(res["fails"]) < 3:
                     res["fails"].append({"family": fam, "case_index": start + j, "label": label, "picture_bytes": pb, "case": case, "observed": obs, "size": _case_size(case)})
     signal.signal(signal.SIGALRM, old)
-    res["seconds"] = time.time() - t0
+    res["seconds"] = time.process_time() - t0
     res["pairs"] = sorted(res["pairs"])
     return res
 
@@ -764,7 +765,7 @@ def check(rep, tier, seed):
         "L2": "exhaustive over frame sizes %s x legal (sampling format, coding mode) x slice grids %s x fragment_slice_count in %s (n = number of slices); transform, content, depths seeded"
               % (SIZES_ALL[:SIZES[tier]["L2_sizes"]], GRIDS_ALL[:SIZES[tier]["L2_grids"]], ["0", "1", "n+1", "3", "2", "n"][:SIZES[tier]["L2_frags"]]),
         "L3": "every luma depth 1..16 x 7 wavelets x contents %s (chroma depth, excursion form, format seeded); plus sequences of ramp pictures in which every value 0..2**d-1 occurs in Y, C1 and C2, d = 1..%d, every wavelet (d <= 8)"
-              % (["max", "checker", "nearext", "min", "impulse", "extnoise", "ramp", "noise"][:SIZES[tier]["L3_kinds"]], SIZES[tier]["L3_allvalues_maxdepth"]),
+              % (["nearext", "checker", "max", "min", "impulse", "extnoise", "ramp", "noise"][:SIZES[tier]["L3_kinds"]], SIZES[tier]["L3_allvalues_maxdepth"]),
         "L4": "dwt_depth 0, 32x8 16-bit 4:4:4, one slice: one component's coefficient code length steered to {255,256,510,...} bytes -1/0/+1 bit (each of Y, C1, C2); plus %d seeded 12..16 bit noise pictures up to 32x16 in 1-2 slices, minimum_slice_size_scaler in {1,2,5}"
               % SIZES[tier]["L4_noise"],
         "Q1": "high quality profile, lossless=False: every wavelet pair x depth shapes + %d seeded format/slice-grid corners; picture_bytes generous (64 bits per padded coefficient of the whole picture in every slice) and, for a stated share, tightest (bisection) +0, +1, +k; counted only if every deserialised qindex is 0"
